@@ -84,6 +84,9 @@ pub fn directed() -> Vec<(&'static str, String)> {
         ("if-non-bool", "als 1 { 2 }".into()),
         ("while-non-bool", "zolang 1 { 2 }".into()),
         ("nested-else-if", format!("als nee {{}} {}", rep("anders als nee {} ", 300))),
+        ("else-if-chain-50k", format!("als nee {{ 1 }}{} anders {{ 3 }}", rep(" anders als nee { 2 }", 50_000))),
+        ("else-if-chain-100k-open", format!("als nee {{ 1 }}{}", rep(" anders als nee { 2 }", 100_000))),
+        ("else-if-chain-in-value-position-50k", format!("stel x = als nee {{ 1 }}{} anders {{ 3 }}; x", rep(" anders als nee { 2 }", 50_000))),
         ("deep-parens-200", format!("{}1{}", rep("(", 200), rep(")", 200))),
         ("deep-parens-100k", format!("{}1{}", rep("(", 100_000), rep(")", 100_000))),
         ("deep-parens-open-100k", rep("(", 100_000)),
@@ -421,6 +424,16 @@ impl Check for C05 {
     }
     fn death_signature(&self, ctx: &Ctx, idx: u64, how: &str) -> Option<String> {
         let (_, name, i) = self.fams(ctx).locate(idx);
+        // Running out of memory (the worker's address space is capped) is the fate of a program that spells out
+        // exponential growth — `x = [x, x]` or `s = s + s` in a loop that an edit made endless — just as running
+        // forever is the fate of `zolang ja { }`: the property excepts what the program itself spells out. Without a
+        // loop or a function in the input, memory exhaustion is the interpreter's doing and stays a finding.
+        if how.starts_with("abort:alloc") {
+            let (_, inputs) = self.inputs(ctx, idx);
+            if inputs.iter().any(|t| t.contains("zolang") || t.contains("functie")) {
+                return None;
+            }
+        }
         if name == "directed" {
             Some(format!("directed:{}:{}", self.directed[i as usize].0, how))
         } else {
@@ -476,7 +489,7 @@ impl Check for C05 {
                 "families": fams.fams.iter().map(|f| json!({"name": f.0, "cases": f.1})).collect::<Vec<_>>(),
                 "directed_cases": self.directed.len(),
             }),
-            assumptions: vec!["inputs larger than 3 MB and non-UTF-8 files are out of scope".to_string(), "a worker killed by SIGKILL or a hang that does not repeat alone is inconclusive, not a violation".to_string()],
+            assumptions: vec!["inputs larger than 3 MB and non-UTF-8 files are out of scope".to_string(), "a worker killed by SIGKILL or a hang that does not repeat alone is inconclusive, not a violation".to_string(), "memory exhaustion (address space capped at 3 GiB per worker) by an input that contains a loop or a function is counted as not judged, like the endless loop the property excepts".to_string()],
             inconclusive,
         }
     }
